@@ -633,3 +633,74 @@ Proof.
   destruct (spec_object_values _ _ _ B) as (cn & nm & tx & ? & ? & ? & ? & ?).
   repeat split; auto. exists cn, nm, tx. auto.
 Qed.
+
+(* ---------- when does the export produce a document at all ---------- *)
+Lemma sequence_all_ok {A B} (g : A -> result B) l :
+  (forall x, In x l -> exists y, g x = Ok y) -> exists l', sequence (map g l) = Ok l'.
+Proof.
+  induction l; simpl; intros H. - eauto.
+  - destruct (H a (or_introl eq_refl)) as (y & ->).
+    destruct IHl as (l' & ->). { intros. apply H. auto. } eauto.
+Qed.
+Lemma build_datatypes_total keys : forall visited,
+  (forall k, In k keys -> exists vs, dt_enum_values (fst k) = Ok vs) -> exists dts, build_datatypes keys visited = Ok dts.
+Proof.
+  induction keys as [|[d k] rest IH]; simpl; intros visited H. - eauto.
+  - destruct (memstr _ visited). + apply IH. intros. apply H. auto.
+    + destruct (H (d, k) (or_introl eq_refl)) as (vs & E). simpl in E. rewrite E.
+      destruct (IH (T_datatype_id (dt_base d) (kind_name k) :: visited)) as (dts & ->). { intros. apply H. auto. } eauto.
+Qed.
+
+(* guards: every definition used is complete for its use, and lxml can parse every XHTML-typed field *)
+Definition DefsComplete (m : module) : Prop :=
+  forall k, In k (all_keys m) -> (exists vs, dt_enum_values (fst k) = Ok vs) /\ (exists d, build_attr_decl k = Ok d).
+Definition FieldsParse (xhtml : str -> result str) (m : module) : Prop :=
+  (forall r, In r (dfs (m_root m)) ->
+     (exists c, xhtml (html_or_empty (r_chap r)) = Ok c) /\ (exists c, xhtml (html_or_empty (r_name r)) = Ok c)
+     /\ (exists c, xhtml (html_or_empty (r_text r)) = Ok c))
+  /\ exists c, xhtml (s_div_open ++ m_long m ++ s_div_close) = Ok c.
+
+Lemma export_total_lemma xhtml m : DefsComplete m -> FieldsParse xhtml m -> exists q, export xhtml m = Ok q.
+Proof.
+  intros DCm (FP & c0 & FM). unfold export. rewrite spec_objects_dfs, hierarchy_dfs.
+  assert (KS : forall t ks k, In (t, ks) (collect_objects m) -> In k ks -> In k (all_keys m)).
+  { unfold collect_objects. rewrite collect_dfs. intros t ks k I Ik.
+    destruct (collect_keys_sub _ _ _ _ _ _ I Ik) as [(? & [] & _)|]; auto. }
+  destruct (build_datatypes_total (flat_map snd (collect_objects m)) []) as (dts & ->).
+  { intros k Ik. apply in_flat_map in Ik. destruct Ik as ([t ks] & I & Ik). apply DCm. eapply KS; eauto. }
+  destruct (sequence_all_ok build_sotype (collect_objects m)) as (sots & ->).
+  { intros [t ks] I. unfold build_sotype.
+    destruct (sequence_all_ok build_attr_decl ks) as (ds & ->); eauto.
+    intros k Ik. apply DCm. eapply KS; eauto. }
+  destruct (sequence_all_ok (build_spec_object xhtml) (dfs (m_root m))) as (objs & ->).
+  { intros r Ir. destruct (FP r Ir) as ((c1 & E1) & (c2 & E2) & (c3 & E3)).
+    unfold build_spec_object, concat_res, html_or_empty in *.
+    cbn [STD_SPEC_OBJECT_ATTRIBUTES map sequence build_std_value std_field str_eqb N.eqb Pos.eqb T_STRING T_XHTML andb].
+    rewrite E1, E2, E3. eauto. }
+  unfold concat_res.
+  cbn [STD_SPECIFICATION_ATTRIBUTES map sequence build_spec_value str_eqb N.eqb Pos.eqb T_XHTML andb].
+  rewrite FM. eauto.
+Qed.
+
+(* ---------- the visited_types set of _build_datatypes makes the generated data types duplicate-free ---------- *)
+Lemma build_datatypes_nodup keys : forall visited dts,
+  build_datatypes keys visited = Ok dts ->
+  NoDup (map dd_id dts) /\ forall x, In x (map dd_id dts) -> ~ In x visited.
+Proof.
+  induction keys as [|[d k] rest IH]; simpl; intros visited dts E.
+  - inversion E; subst. split. constructor. intros x [].
+  - destruct (memstr _ visited) eqn:M. + eapply IH; eauto.
+    + destruct (dt_enum_values d); try discriminate.
+      destruct (build_datatypes rest _) eqn:B; try discriminate. inversion E; subst. clear E.
+      destruct (IH _ _ B) as (N & O). simpl. split.
+      * constructor; auto. intros I. apply (O _ I). left. reflexivity.
+      * intros x [<-|I].
+        -- intros I. apply memstr_In in I. congruence.
+        -- intros I2. apply (O _ I). right. auto.
+Qed.
+Lemma datatypes_nodup xhtml m q : export xhtml m = Ok q ->
+  exists dts, q_datatypes q = std_datatypes ++ dts /\ NoDup (map dd_id dts) /\ has_dup (map dd_id std_datatypes) = false.
+Proof.
+  intros E. destruct (export_inv _ _ _ E) as (dts & sots & objs & svals & D & _ & _ & _ & ->).
+  exists dts. simpl. repeat split. apply (build_datatypes_nodup _ _ _ D).
+Qed.
